@@ -76,8 +76,10 @@ def gen_case(rng, ctx):
             fields = {}
             for f in rng.sample(["type_id", "client", "hostname", "name", "data"], rng.randrange(1, 6)):
                 fields[f] = {"k": rand_data(rng, 2), "n": 1} if f == "data" else _meta_vals(rng)
+            if rng.random() < 0.06:
+                fields = {}          # an update that supplies no field at all: refused or accepted, it changes nothing
             st = dict(op="update", b=bid, fields=fields)
-            if rng.random() < 0.35:
+            if fields and rng.random() < 0.35:
                 # an update that looks like no change: the current values re-sent, or data that is equal to the stored
                 # data as Python objects but not as JSON (1 / true / 1.0, at any depth) - alone or next to a real change
                 st["like"] = rng.choice(["same", "retype", "retype"])
@@ -250,7 +252,13 @@ def run_case(case, ctx):
                         else:
                             f["data"] = _retype(copy.deepcopy(cur["data"]) or {"flag": 1})
                         ctx.count(f"updates_that_look_like_no_change.{s['like']}")
-                    if live:
+                    if live and not f:
+                        try:
+                            ds.update_bucket(bid)
+                        except ValueError:
+                            ctx.count("updates_without_any_field.refused")
+                        ctx.count("updates_without_any_field")
+                    elif live:
                         ds.update_bucket(bid, **copy.deepcopy(f))
                         m = model[bid]
                         for key, val in f.items():
